@@ -95,13 +95,28 @@ def ev(v, val, hooks=None):
                 return pow(*args)
             if name == 'abs':
                 return abs(args[0])
+            if name == 'divmod':
+                return divmod(args[0], args[1])
         if op == 'mcall':
             base = ev(a[0], val, hooks)
             args = [ev(x, val, hooks) for x in a[2:]]
             if isinstance(base, (str, bytes)) and a[1] in (
                     'lower', 'upper', 'strip', 'startswith', 'endswith',
-                    'lstrip', 'rstrip', 'replace', 'split', 'count'):
+                    'lstrip', 'rstrip', 'replace', 'split', 'count', 'join',
+                    'isascii', 'find', 'rsplit', 'partition'):
                 return getattr(base, a[1])(*args)
+        if op == 'attr' and len(a) == 2:
+            base = ev(a[0], val, hooks)
+            if isinstance(base, Obj):
+                raise CannotEval('attribute of abstract object')
+            try:
+                return getattr(base, a[1])
+            except AttributeError:
+                raise Raised('AttributeError')
+        if op == 'list':
+            return [ev(x, val, hooks) for x in a]
+        if op == 'set':
+            return set(ev(x, val, hooks) for x in a)
         if op == 'raises':
             try:
                 ev(a[0], val, hooks)
